@@ -1,28 +1,15 @@
 /-
-  Certificate obligations, parts 24..31 of 64 of the `current` client system (kernel evaluation; 8 modules
-  so that lake checks them in parallel; small parts keep the kernel's memory small).
-  Assembled in `Lemmas/CliCert.lean`.
+  Certificate obligations, parts 6..7 of 16 of the `current` client system (kernel evaluation; 8 modules
+  so that lake checks them in parallel). Assembled in `Lemmas/CliCert.lean`.
 -/
 import KmipModel.Model.CliConn
 import KmipModel.Gen.CertCliConn
 namespace Kmip.CliCert
 open Kmip.CliLts Kmip.CliConn Kmip.Gen.CertCliConn
 
-theorem cuClosed24 : partClosed (sys current) codec certCurrent cuP24 = true := by decide +kernel
-theorem cuSafe24 : partSafe codec (badPartial current) cuP24 = true := by decide +kernel
-theorem cuClosed25 : partClosed (sys current) codec certCurrent cuP25 = true := by decide +kernel
-theorem cuSafe25 : partSafe codec (badPartial current) cuP25 = true := by decide +kernel
-theorem cuClosed26 : partClosed (sys current) codec certCurrent cuP26 = true := by decide +kernel
-theorem cuSafe26 : partSafe codec (badPartial current) cuP26 = true := by decide +kernel
-theorem cuClosed27 : partClosed (sys current) codec certCurrent cuP27 = true := by decide +kernel
-theorem cuSafe27 : partSafe codec (badPartial current) cuP27 = true := by decide +kernel
-theorem cuClosed28 : partClosed (sys current) codec certCurrent cuP28 = true := by decide +kernel
-theorem cuSafe28 : partSafe codec (badPartial current) cuP28 = true := by decide +kernel
-theorem cuClosed29 : partClosed (sys current) codec certCurrent cuP29 = true := by decide +kernel
-theorem cuSafe29 : partSafe codec (badPartial current) cuP29 = true := by decide +kernel
-theorem cuClosed30 : partClosed (sys current) codec certCurrent cuP30 = true := by decide +kernel
-theorem cuSafe30 : partSafe codec (badPartial current) cuP30 = true := by decide +kernel
-theorem cuClosed31 : partClosed (sys current) codec certCurrent cuP31 = true := by decide +kernel
-theorem cuSafe31 : partSafe codec (badPartial current) cuP31 = true := by decide +kernel
+theorem cuClosed6 : partClosed (sys current) codec certCurrent cuP6 = true := by decide +kernel
+theorem cuSafe6 : partSafe codec (bad current) cuP6 = true := by decide +kernel
+theorem cuClosed7 : partClosed (sys current) codec certCurrent cuP7 = true := by decide +kernel
+theorem cuSafe7 : partSafe codec (bad current) cuP7 = true := by decide +kernel
 
 end Kmip.CliCert
